@@ -9,7 +9,7 @@
    reproduces byte for byte. *)
 From Coq Require Import String NArith List Bool.
 From RC Require Import lib.Result model.Layout model.TrigTable model.RichCodec model.Str model.StrEditor model.Alloc
-  proofs.C04_proofs proofs.C04_readback proofs.C04_locations proofs.C04_cuwps proofs.C04_reload proofs.C04_switches model.ChkIo gen.GenConsts proofs.C07_triggers proofs.C07_slots model.RichIo proofs.C08_proofs proofs.C09_proofs proofs.Save_strings proofs.Save_refs gen.GenTrig spec.SpecTrig gen.GenFlags gen.GenConsts.
+  proofs.C04_proofs proofs.C04_readback proofs.C04_locations proofs.C04_cuwps proofs.C04_reload proofs.C04_switches proofs.C04_wavs model.ChkIo gen.GenConsts proofs.C07_triggers proofs.C07_slots model.RichIo proofs.C08_proofs proofs.C09_proofs proofs.Save_strings proofs.Save_refs gen.GenTrig spec.SpecTrig gen.GenFlags gen.GenConsts.
 Import ListNotations.
 Local Open Scope N_scope.
 
@@ -228,3 +228,14 @@ Theorem C04_the_emitted_switch_table_is_read_back_name_by_name :
     nth_error (swnm_lookup L v) j = Some (N.of_nat j, {| s_name := s_name s; s_idx := Some (N.of_nat j); s_oid := 0%N |}).
 Proof. exact an_emitted_switch_table_reads_back. Qed.
 Print Assumptions C04_the_emitted_switch_table_is_read_back_name_by_name.
+
+(* ... and the sound table: a sound the save wrote into slot k is found by a later load at slot k under the same path *)
+Theorem C04_the_emitted_sound_table_is_read_back :
+  forall L ws v k p,
+    (N.of_nat (length (sl_by_id L)) <= 1000000)%N -> wav_encode L ws = Ok v ->
+    (k < N.to_nat MAX_WAV_FILES)%nat ->
+    assocN_last (N.of_nat k) (map (fun w : rstr * N => (snd w, fst w)) ws) = Some p ->
+    p <> RNull ->
+    In (p, N.of_nat k) (wav_decode L v).
+Proof. exact an_emitted_sound_table_reads_back. Qed.
+Print Assumptions C04_the_emitted_sound_table_is_read_back.
